@@ -40,7 +40,7 @@ TP(cls, text, refs, pos) == [cls |-> cls, text |-> text, ok |-> TRUE, okA |-> TR
 
 \* Go regexp syntax (regexp.Compile)
 RegexpValues == {
-  V("all", ".*", TRUE), V("plain", "foo.*", TRUE), V("alt", "(a|b)+\\.yml", TRUE), V("empty", "", TRUE),
+  V("all", ".*", TRUE), V("plain", "foo.*", TRUE), V("lit", "foo", TRUE), V("alt", "(a|b)+\\.yml", TRUE), V("empty", "", TRUE),
   V("invParen", "(", FALSE), V("invBracket", "[a", FALSE), V("invRepeat", "a{2,1}", FALSE),
   \* not regexps on their own, but "^*$" and "^\$" are: accepted wherever validation anchors first
   VA("invStar", "*", FALSE, TRUE, FALSE), VA("invEscape", "\\", FALSE, TRUE, FALSE),
@@ -111,6 +111,24 @@ StringValues == { V("text", "some text", TRUE), V("empty", "", FALSE), V("meta",
 URIValues == { V("http", "http://127.0.0.1:1", TRUE), V("path", "http://127.0.0.1:1/prom/", TRUE), V("empty", "", FALSE),
                V("noScheme", "127.0.0.1:1", FALSE), V("badPort", "http://127.0.0.1:x", FALSE), V("space", "http://a b", FALSE) }
 
+\* text/template strings of discovery{} templates (rendered per discovered server with missingkey=error; the
+\* rendered prometheus{} block is validated again before use)
+DTemplateValues == {
+  V("plain", "prom", TRUE), V("empty", "", FALSE), V("refVar", "x{{ $name }}", TRUE), V("undefVar", "{{ $nope }}", TRUE),
+  V("missingField", "{{ .nope }}", TRUE), V("syntax", "{{ .", TRUE), V("rendersBadRe", "(", TRUE), V("space", "a b", TRUE) }
+
+\* prometheus tags must not contain spaces or newlines
+TagValues == { V("plain", "t1", TRUE), V("meta", "(+x)", TRUE), V("empty", "", TRUE), V("space", "a b", FALSE), V("newline", "a\nb", FALSE) }
+
+\* files named in tls{}: config.Load reads the CA file (a missing file is an error, junk is silently ignored)
+PathValues == { V("missing", "/nonexistent/verif.pem", FALSE), V("junk", "junk.pem", TRUE), V("empty", "", TRUE) }
+DirValues  == { V("exists", "servers", TRUE), V("missing", "nonexistent", TRUE), V("empty", "", TRUE), V("file", "rules.yml", TRUE) }
+
+\* PromQL accepted by parser.DecodeExpr (discovery prometheusQuery)
+PromQLValues == { V("selector", "up", TRUE), V("expr", "count(up) by (job)", TRUE), V("empty", "", FALSE), V("unclosed", "up{", FALSE) }
+
+BoolValues == { V("true", "true", TRUE), V("false", "false", TRUE) }
+
 ValuesOf(type) ==
   CASE type = "regexp"     -> RegexpValues
     [] type = "tregexp"    -> TemplatedValues
@@ -129,6 +147,13 @@ ValuesOf(type) ==
     [] type = "uptime"     -> UptimeValues
     [] type = "string"     -> StringValues
     [] type = "uri"        -> URIValues
+    [] type = "dtmpl"      -> DTemplateValues
+    [] type = "tag"        -> TagValues
+    [] type = "path"       -> PathValues
+    [] type = "dir"        -> DirValues
+    [] type = "promql"     -> PromQLValues
+    [] type = "bool"       -> BoolValues
+    [] type = "checkblock" -> EnumValues({"promql/series", "promql/regexp"}) \cup {V("otherCheck", "promql/rate", FALSE)}
 
 -----------------------------------------------------------------------------
 (* The option table.                                                        *)
@@ -140,6 +165,11 @@ ValuesOf(type) ==
 (*  ub (usedBy):       MustExpand   TemplatedRegexp.MustExpand(rule).Match  *)
 (*                     strictRegex  regexp.MustCompile("^" + v + "$")       *)
 (*                     matchRegex   regexp.MustCompile("^(?:" + v + ")$")   *)
+(*                     render       discovery template: rendered per server *)
+(*                                  with text/template, the result goes     *)
+(*                                  through PrometheusConfig.validate; any   *)
+(*                                  failure is an error return              *)
+(*                     ciOnly       only `pint ci` reporters read it        *)
 (*                     newRequest   spliced into a URL for http.NewRequest  *)
 (*                                  (an error is reported as a problem)     *)
 (*                     dropErr      parsed again, error dropped, zero value *)
@@ -152,7 +182,7 @@ ValuesOf(type) ==
 (*         prom = `pint lint` with a prometheus{} block pointing at a       *)
 (*         server that has data (the checks that query a server)            *)
 O(id, type, vb, emptyOk, ub, reach, mode) ==
-  [id |-> id, type |-> type, vb |-> vb, emptyOk |-> emptyOk, ub |-> ub, reach |-> reach, mode |-> mode]
+  [id |-> id, type |-> type, vb |-> vb, emptyOk |-> emptyOk, ub |-> ub, reach |-> reach, mode |-> mode, pair |-> FALSE]
 
 \* an ignore block needs a condition: an empty path / name / kind / for is "not set" and leaves the block empty
 MatchOptions(b) == {   \* config/match.go Match.validate / Match.IsMatch, for b = "match" | "ignore"
@@ -220,7 +250,7 @@ Options ==
   O("ci.maxCommits",                 "int",        "positive", FALSE, "plain", "always", "offline"),
   O("check.series.ignoreMetrics",    "regexp",     "anchored", TRUE, "plain", "always", "prom"),
   O("check.series.lookbackRange",    "duration",   "std", TRUE,  "plain",   "always", "prom"),
-  O("check.series.lookbackStep",     "duration",   "std", TRUE,  "plain",   "always", "prom"),
+  O("check.series.lookbackStep",     "duration",   "std", TRUE,  "loopStep", "recording", "prom"),
   O("check.series.fallbackTimeout",  "duration",   "std", TRUE,  "plain",   "always", "prom"),
   O("check.series.ignoreLabelsValue", "selector",  "std", FALSE, "plain",   "always", "prom"),
   \* prometheus{}: newFailoverGroup (strictRegex on include/exclude, parseDuration on timeout with the error dropped)
@@ -231,7 +261,56 @@ Options ==
   O("prometheus.uri",                "uri",        "std", FALSE, "plain",   "always", "prom"),
   O("prometheus.failover",           "uri",        "none", TRUE, "plain",   "always", "prom"),
   O("prometheus.concurrency",        "int",        "none", TRUE, "plain",   "always", "prom"),
-  O("prometheus.rateLimit",          "int",        "none", TRUE, "plain",   "always", "prom") }
+  O("prometheus.rateLimit",          "int",        "none", TRUE, "plain",   "always", "prom"),
+  O("prometheus.publicURI",          "uri",        "none", TRUE, "plain",   "always", "prom"),
+  O("prometheus.headers",            "string",     "none", TRUE, "plain",   "always", "prom"),
+  O("prometheus.tags",               "tag",        "std",  TRUE, "plain",   "always", "prom"),
+  O("prometheus.required",           "bool",       "std",  TRUE, "plain",   "always", "prom"),
+  O("prometheus.tls.serverName",     "string",     "none", TRUE, "plain",   "always", "prom"),
+  O("prometheus.tls.caCert",         "path",       "std",  TRUE, "plain",   "always", "prom"),
+  O("prometheus.tls.clientCert",     "path",       "never", TRUE, "plain",  "always", "prom"),   \* needs clientKey
+  O("prometheus.tls.skipVerify",     "bool",       "std",  TRUE, "plain",   "always", "prom"),
+  \* check "..." {} blocks: only promql/series and promql/regexp have settings
+  O("check.name",                    "checkblock", "std",  FALSE, "plain",  "always", "offline"),
+  O("check.regexp.smelly",           "bool",       "std",  TRUE, "plain",   "always", "offline"),
+  O("check.series.ignoreMatchingElsewhere", "selector", "std", FALSE, "plain", "always", "prom"),
+  O("ci.baseBranch",                 "string",     "none", TRUE, "plain",   "always", "offline"),
+  \* discovery{}: Discover runs before the checks of a non-offline run; every failure is an error return (exit 1)
+  O("discovery.filepath.directory",  "dir",        "none", TRUE, "plain",   "always", "prom"),
+  O("discovery.filepath.match",      "regexp",     "std",  TRUE, "strictRegex", "always", "prom"),
+  O("discovery.filepath.ignore",     "regexp",     "std",  TRUE, "strictRegex", "always", "prom"),
+  O("discovery.filepath.template.name",    "dtmpl", "none", FALSE, "render", "always", "prom"),
+  O("discovery.filepath.template.uri",     "dtmpl", "none", FALSE, "render", "always", "prom"),
+  O("discovery.filepath.template.publicURI", "dtmpl", "none", TRUE, "render", "always", "prom"),
+  O("discovery.filepath.template.failover", "dtmpl", "none", TRUE, "render", "always", "prom"),
+  O("discovery.filepath.template.include", "dtmpl", "none", TRUE, "render", "always", "prom"),
+  O("discovery.filepath.template.exclude", "dtmpl", "none", TRUE, "render", "always", "prom"),
+  O("discovery.filepath.template.tags",    "dtmpl", "none", TRUE, "render", "always", "prom"),
+  O("discovery.filepath.template.headers", "dtmpl", "none", TRUE, "render", "always", "prom"),
+  O("discovery.filepath.template.timeout", "duration", "std", TRUE, "dropErr", "always", "prom"),
+  O("discovery.filepath.template.uptime",  "uptime", "none", TRUE, "plain", "always", "prom"),  \* checked only after rendering
+  O("discovery.query.uri",           "uri",        "none", TRUE, "plain",   "always", "prom"),
+  O("discovery.query.query",         "promql",     "std",  FALSE, "plain",  "always", "prom"),
+  O("discovery.query.timeout",       "duration",   "std",  TRUE, "dropErr", "always", "prom"),
+  O("discovery.query.template.name", "dtmpl",      "none", FALSE, "render", "always", "prom"),
+  O("discovery.query.template.uri",  "dtmpl",      "none", FALSE, "render", "always", "prom"),
+  O("discovery.query.template.include", "dtmpl",   "none", TRUE, "render", "always", "prom"),
+  \* repository{}: validated by Load, used by `pint ci` only (reporters); a lint run never looks at them
+  O("repository.bitbucket.uri",      "string",     "none", FALSE, "ciOnly", "always", "offline"),
+  O("repository.bitbucket.timeout",  "duration",   "std",  TRUE,  "ciOnly", "always", "offline"),
+  O("repository.bitbucket.project",  "string",     "none", FALSE, "ciOnly", "always", "offline"),
+  O("repository.bitbucket.repository", "string",   "none", FALSE, "ciOnly", "always", "offline"),
+  O("repository.bitbucket.maxComments", "int",     "std",  TRUE,  "ciOnly", "always", "offline"),
+  O("repository.github.baseuri",     "uri",        "std",  TRUE,  "ciOnly", "always", "offline"),
+  O("repository.github.uploaduri",   "uri",        "std",  TRUE,  "ciOnly", "always", "offline"),
+  O("repository.github.timeout",     "duration",   "std",  TRUE,  "ciOnly", "always", "offline"),
+  O("repository.github.owner",       "string",     "none", FALSE, "ciOnly", "always", "offline"),
+  O("repository.github.repo",        "string",     "none", FALSE, "ciOnly", "always", "offline"),
+  O("repository.github.maxComments", "int",        "std",  TRUE,  "ciOnly", "always", "offline"),
+  O("repository.gitlab.uri",         "string",     "none", TRUE,  "ciOnly", "always", "offline"),
+  O("repository.gitlab.timeout",     "duration",   "none", TRUE,  "ciOnly", "always", "offline"),   \* GitLab.validate never parses it
+  O("repository.gitlab.project",     "int",        "positive", FALSE, "ciOnly", "always", "offline"),
+  O("repository.gitlab.maxComments", "int",        "std",  TRUE,  "ciOnly", "always", "offline") }
 
 OptionById(id) == CHOOSE o \in Options : o.id = id
 
@@ -294,6 +373,7 @@ RuleSig(r) == r.kind \o "/" \o r.shape \o "/" \o r.where \o "=" \o r.meta
 Validates(o, v) ==
   IF v.text = "" THEN o.emptyOk
   ELSE CASE o.vb = "none"     -> TRUE
+         [] o.vb = "never"    -> FALSE                                        \* tls: clientCert without clientKey
          [] o.vb = "std"      -> IF o.type = "tregexp" THEN v.okA ELSE v.ok   \* NewTemplatedRegexp anchors, then compiles
          [] o.vb = "anchored" -> v.okA                                        \* PromqlSeriesSettings.Validate
          [] o.vb = "grouped"  -> v.ok /\ v.okG                                \* validateMatchRegex (F25 fix)
@@ -326,6 +406,7 @@ Reaches(o, v, r) ==
        [] o.reach = "full"      -> IsFull(r)
        [] o.reach = "alertFull" -> r.kind = "alerting" /\ IsFull(r)
        [] o.reach = "alerting"  -> r.kind = "alerting"
+       [] o.reach = "recording" -> r.kind = "recording"
 
 \* the use site panics
 UseFails(o, v, r) ==
@@ -341,40 +422,93 @@ UseFails(o, v, r) ==
 Accepts(o, v)   == Validates(o, v)
 Panics(o, v, r) == UseFails(o, v, r)
 
-\* Not a crash and not part of C18, recorded because EXEC meets it: a zero step accepted at load time makes
-\* promapi.SeriesTimeRanges.FindGaps (`for t := start; t < end; t = t.Add(step)`) spin forever as soon as the
-\* server returns a series for the alert query (checks.AlertsCheck).
+-----------------------------------------------------------------------------
+(* Two options in one block whose use sites interact: the first decides     *)
+(* whether the second is evaluated for a rule.                              *)
+(*  keyHits     label V1 { token|value = V2 }: the value pattern is only    *)
+(*              expanded for labels the key selects (alerting: key regexp   *)
+(*              matches "foo"; recording: a label literally named V1)       *)
+(*  keyHitsAnn  annotation V1 { value = V2 }: key regexp matches "summary"  *)
+(*  notIgnored  rule { ignore { name = V1 } name V2 {} }: an ignored rule   *)
+(*              never reaches the rule/name check                           *)
+(*  kindMatches rule { match { kind = V1 } name V2 {} }                     *)
+PairDefs == {
+  [id |-> "pair.label.key+token",            a |-> "rule.label.key",        b |-> "rule.label.token",       link |-> "keyHits"],
+  [id |-> "pair.label.key+value",            a |-> "rule.label.key",        b |-> "rule.label.value",       link |-> "keyHits"],
+  [id |-> "pair.annotation.key+value",       a |-> "rule.annotation.key",   b |-> "rule.annotation.value",  link |-> "keyHitsAnn"],
+  [id |-> "pair.ignore.name+name",           a |-> "rule.ignore.name",      b |-> "rule.name.regex",        link |-> "notIgnored"],
+  [id |-> "pair.match.kind+name",            a |-> "rule.match.kind",       b |-> "rule.name.regex",        link |-> "kindMatches"],
+  [id |-> "pair.match.label.key+value",      a |-> "rule.match.label.key",  b |-> "rule.match.label.value", link |-> "always"],
+  [id |-> "pair.for.min+max",                a |-> "rule.for.min",          b |-> "rule.for.max",           link |-> "always"],
+  [id |-> "pair.prometheus.include+exclude", a |-> "prometheus.include",    b |-> "prometheus.exclude",     link |-> "always"] }
+PairById(id) == CHOOSE p \in PairDefs : p.id = id
+PairClasses == {"all", "plain", "lit", "empty", "invParen", "invStar", "openQuote", "refLabel", "refAlert", "condExec",
+                "valid", "zero", "invUnit", "valid:alerting", "valid:recording", "bogus"}
+PairValues(type) == {v \in ValuesOf(type) : v.cls \in PairClasses}
+
+Linked(p, v1, r) ==
+  CASE p.link = "keyHits"     -> IsFull(r) /\ IF r.kind = "alerting" THEN v1.cls \in {"all", "plain", "lit"} ELSE v1.cls = "lit"
+    [] p.link = "keyHitsAnn"  -> IsFull(r) /\ r.kind = "alerting" /\ v1.cls = "all"
+    [] p.link = "notIgnored"  -> v1.cls # "all"
+    [] p.link = "kindMatches" -> v1.text = "" \/ v1.text = r.kind
+    [] OTHER                  -> TRUE
+PairAccepts(p, v1, v2) ==
+  /\ Validates(OptionById(p.a), v1) /\ Validates(OptionById(p.b), v2)
+  /\ p.id = "pair.for.min+max" => ~(v1.text = "" /\ v2.text = "")      \* "must set either min or max option, or both"
+PairPanics(p, v1, v2, r) ==
+  \/ UseFails(OptionById(p.a), v1, r)
+  \/ Linked(p, v1, r) /\ UseFails(OptionById(p.b), v2, r)
+
+\* Not a crash: a zero step makes promapi.SeriesTimeRanges.FindGaps (`for t := start; t < end; t = t.Add(step)`)
+\* spin forever as soon as a range query returns a series (checks.AlertsCheck; checks.SeriesCheck for a metric that
+\* is absent now but has history). Neither validator refuses a zero step. A stall is not a crash: outside C18
+\* (fixes/c18-zero-step-hangs.patch is kept for reference); JUDGE binds recorded hangs to this operator and the
+\* driver prints them as NOTE.
 Stalls(o, v, r) == o.ub = "loopStep" /\ Reaches(o, v, r) /\ Accepts(o, v) /\ v.cls = "zero"
 
 -----------------------------------------------------------------------------
 (* State machine: choose a case, load the configuration, lint the rule.     *)
-VARIABLES opt, val, rule, pc, accepted, panicked
-vars == <<opt, val, rule, pc, accepted, panicked>>
-None == [cls |-> "none"]
+VARIABLES opt, val, val2, rule, pc, accepted, panicked
+vars == <<opt, val, val2, rule, pc, accepted, panicked>>
+None == [cls |-> "none", text |-> "", refs |-> {}, tmpl |-> "none"]
 
-Init == opt = None /\ val = None /\ rule = None /\ pc = "ChooseOption" /\ accepted = FALSE /\ panicked = FALSE
+Init == opt = None /\ val = None /\ val2 = None /\ rule = None /\ pc = "ChooseOption" /\ accepted = FALSE /\ panicked = FALSE
 
-ChooseOption(o) == pc = "ChooseOption" /\ opt' = o /\ pc' = "ChooseValue" /\ UNCHANGED <<val, rule, accepted, panicked>>
-ChooseValue(v)  == pc = "ChooseValue" /\ val' = v /\ pc' = "ChooseRule" /\ UNCHANGED <<opt, rule, accepted, panicked>>
+ChooseOption(o) == pc = "ChooseOption" /\ opt' = o /\ pc' = "ChooseValue" /\ UNCHANGED <<val, val2, rule, accepted, panicked>>
+\* a pair is handled as its first option carrying the pair definition along
+PairOpt(p) == [pdef |-> p] @@ [OptionById(p.a) EXCEPT !.id = p.id, !.pair = TRUE]
+ChoosePair(p)   == pc = "ChooseOption" /\ opt' = PairOpt(p) /\ pc' = "ChooseValue" /\ UNCHANGED <<val, val2, rule, accepted, panicked>>
+ChooseValue(v)  == /\ pc = "ChooseValue" /\ val' = v /\ pc' = IF opt.pair THEN "ChooseValue2" ELSE "ChooseRule"
+                   /\ ~(opt.id = "prometheus.rateLimit" /\ v.cls = "one")   \* one request per second is slow by design
+                   /\ UNCHANGED <<opt, val2, rule, accepted, panicked>>
+ChooseValue2(v) == pc = "ChooseValue2" /\ val2' = v /\ pc' = "ChooseRule" /\ UNCHANGED <<opt, val, rule, accepted, panicked>>
 \* values that do not look at the rule meet the four plain rules and one rule per metacharacter position
 Thin(r) == r.where = "none" \/ r.meta = "paren" \/ r.where = "link"
 ChooseRule(r)   == /\ pc = "ChooseRule"
-                   /\ Full \/ val.refs # {} \/ val.tmpl = "execErrIfAlert" \/ Thin(r)
+                   /\ Full \/ val.refs # {} \/ val.tmpl = "execErrIfAlert" \/ val2.refs # {} \/ val2.tmpl = "execErrIfAlert"
+                      \/ IF opt.ub \in {"MustExpand", "strictRegex", "matchRegex", "newRequest"} THEN Thin(r)
+                         \* values that are only parsed or copied meet one rule of each kind and the unparsable rule
+                         ELSE r.where = "none" /\ r.shape \in {"full", "broken"}
+                   /\ opt.pair => (r.where \in {"none", "foo"} /\ r.meta \in {"none", "paren"} /\ r.shape \in {"full", "bare"})
                    \* a stalling run costs EXEC its whole deadline: one rule of each kind is enough
                    /\ (opt.ub = "loopStep" /\ val.cls = "zero") => (r.where = "none" /\ r.shape = "full")
                    \* the link annotation variant only matters to the link check
                    /\ r.where = "link" => (Full \/ opt.id \in {"rule.link.uri", "rule.link.regex", "rule.link.timeout"})
-                   /\ rule' = r /\ pc' = "Load" /\ UNCHANGED <<opt, val, accepted, panicked>>
+                   /\ rule' = r /\ pc' = "Load" /\ UNCHANGED <<opt, val, val2, accepted, panicked>>
+CaseAccepts == IF opt.pair THEN PairAccepts(opt.pdef, val, val2) ELSE Accepts(opt, val)
+CasePanics  == IF opt.pair THEN PairPanics(opt.pdef, val, val2, rule) ELSE Panics(opt, val, rule)
 \* config.Load: every validate() method
-Load == /\ pc = "Load" /\ accepted' = Accepts(opt, val)
-        /\ pc' = IF Accepts(opt, val) THEN "Lint" ELSE "Rejected"
-        /\ UNCHANGED <<opt, val, rule, panicked>>
+Load == /\ pc = "Load" /\ accepted' = CaseAccepts
+        /\ pc' = IF CaseAccepts THEN "Lint" ELSE "Rejected"
+        /\ UNCHANGED <<opt, val, val2, rule, panicked>>
 \* GetChecksForEntry -> parseRule -> checks (scanWorker goroutine): a panic kills the process
-Lint == /\ pc = "Lint" /\ panicked' = Panics(opt, val, rule) /\ pc' = "Done"
-        /\ UNCHANGED <<opt, val, rule, accepted>>
+Lint == /\ pc = "Lint" /\ panicked' = CasePanics /\ pc' = "Done"
+        /\ UNCHANGED <<opt, val, val2, rule, accepted>>
 
 Next == \/ \E o \in Options : ChooseOption(o)
-        \/ (pc = "ChooseValue" /\ \E v \in ValuesOf(opt.type) : ChooseValue(v))
+        \/ \E p \in PairDefs : ChoosePair(p)
+        \/ (pc = "ChooseValue" /\ \E v \in (IF opt.pair THEN PairValues(opt.type) ELSE ValuesOf(opt.type)) : ChooseValue(v))
+        \/ (pc = "ChooseValue2" /\ \E v \in PairValues(OptionById(opt.pdef.b).type) : ChooseValue2(v))
         \/ (pc = "ChooseRule" /\ \E r \in Rules : ChooseRule(r))
         \/ Load \/ Lint
 Spec == Init /\ [][Next]_vars
@@ -383,14 +517,15 @@ Spec == Init /\ [][Next]_vars
 Inv_C18 == accepted => ~panicked
 \* every rejected value is one the validator is documented to refuse (no accepted-but-unusable class is hidden
 \* behind a rejection): values the type's validator accepts are only rejected for being empty / zero
-Inv_RejectsOnlyInvalid == pc = "Rejected" =>
-  (~val.ok \/ val.text = "" \/ val.cls = "zero" \/ (opt.vb = "grouped" /\ ~val.okG))
+Inv_RejectsOnlyInvalid == (pc = "Rejected" /\ ~opt.pair) =>
+  (~val.ok \/ val.text = "" \/ val.cls = "zero" \/ (opt.vb = "grouped" /\ ~val.okG) \/ opt.vb = "never")
 \* the assumption behind every strictRegex use: what regexp.Compile accepts stays valid between ^ and $
 Inv_AnchorKeepsValid == \A v \in RegexpValues : v.ok => v.okA
 \* ... which does not hold for the grouped form (\Q): that is why Match.validate has to compile the grouped form itself
 Inv_GroupedNeedsOwnValidation == \E v \in RegexpValues : v.ok /\ ~v.okG
 
 CaseOf(o, v, r) == [opt |-> o.id, type |-> o.type, mode |-> o.mode, cls |-> v.cls, text |-> v.text,
+                    pair |-> o.pair, cls2 |-> val2.cls, text2 |-> val2.text,
                     rule |-> [kind |-> r.kind, shape |-> r.shape, where |-> r.where, meta |-> r.meta,
                               name |-> r.name, foo |-> r.foo, summary |-> r.summary, link |-> r.link]]
 \* GEN: one case per (option, value, rule)
